@@ -498,7 +498,7 @@ def run(ctx):
     def eval_chunk(ci):
         idx = list(range(ci, len(sel), chunks))
         body = (PRELUDE + "Definition fp (o : option node) : N * N * N :=\n"
-                "  match o with None => (0, 0, 0) | Some n => (match n with NGroup _ => 1 | NPath _ _ _ => 2 | NImage _ _ => 3 | NText _ _ _ => 4 end,"
+                "  match o with None => (0, 0, 0) | Some n => (match n with NGroup _ => 1 | NPath _ _ _ _ => 2 | NImage _ _ => 3 | NText _ _ _ => 4 end,"
                 " node_id n, N.of_nat (length (desc_node n))) end.\n"
                 "Definition fp_eqb (a b : N * N * N) : bool := (fst (fst a) =? fst (fst b)) && (snd (fst a) =? snd (fst b)) && (snd a =? snd b).\n"
                 "Definition case_ok (c : tree * list (N * (N * N * N))) : bool :=\n"
